@@ -67,6 +67,9 @@ class CheckC08(core.Check):
             bad = dict(keys.psks)
             bad[n] = flipbit(bad[n], rnd.randrange(256))
             items.append(("psk%d-bit" % n, {}, {"psks": bad}) if rnd.random() < 0.5 else ("psk%d-bit" % n, {"psks": bad}, {}))
+            # the differing PSK arrives through set_psk() after the party was built with the agreed one
+            side = rnd.choice([0, 1])
+            items.append(("psk%d-setpsk" % n, {"setpsk": (n, bad[n])} if side == 0 else {}, {"setpsk": (n, bad[n])} if side else {}))
         publen = prims.DH_PUBLEN[parsed.dh]
         other = sessions.Keys(parsed, 99)
         if needs_remote_static(parsed.pattern, True):
@@ -113,13 +116,17 @@ class CheckC08(core.Check):
         subs = []
         for j, (label, oa, ob) in enumerate(items):
             ids = ("A%d" % j, "B%d" % j)
+            res = rnd.choice(["D", "D", "R", "DR"])  # both peers on the same back end (mixed back ends are C20's matter)
             for pid, ini, ov in ((ids[0], True, oa), (ids[1], False, ob)):
                 kw = sessions.party_kwargs(parsed, keys, ini)
                 for k in ("psks", "s", "rs"):
                     if k in ov:
                         kw[k] = ov[k]
-                c.party(pid, "i" if ini else "r", ov.get("name", name), rng="script:%d%s" % (seed, pid[0]), prologue=ov.get("prologue"), rec="-", **kw)
+                c.party(pid, "i" if ini else "r", ov.get("name", name), res=res, rng="script:%d%s" % (seed, pid[0]), prologue=ov.get("prologue"), rec="-", **kw)
             b0, b1 = c.op("build", ids[0]), c.op("build", ids[1])
+            for pid, ov in ((ids[0], oa), (ids[1], ob)):
+                if "setpsk" in ov:
+                    c.op("set_psk", pid, loc=ov["setpsk"][0], key=ov["setpsk"][1])
             # empty payloads matter: then a bare 16-byte tag is all that authenticates the transcript
             lp = c.op("pingpong", a=ids[0], b=ids[1], max=8, plen=rnd.choice([0, 0, 3, 40]), seed="cx")
             tr = []
